@@ -61,6 +61,8 @@ pub fn pool(ty: Ty) -> Vec<V> {
             Value::String("a b".into()),
             // comment markers inside a string literal are text
             Value::String("p//q /* r */".into()),
+            // ... and so is a Windows line ending
+            Value::String("x\r\ny".into()),
         ],
         Ty::Tuple => vec![
             Value::Tuple(vec![Value::Int(1), Value::Int(2)]),
@@ -184,6 +186,43 @@ impl<'a> Gen<'a> {
     }
 
     fn statement(&mut self, budget: usize, depth: usize) -> Expr {
+        let e = self.statement_plain(budget, depth);
+        if self.cfg.nested_statements && self.rng.percent(2) {
+            return self.hand_edited(e);
+        }
+        e
+    }
+
+    /// A tree somebody edited through the public accessors: further children below the
+    /// statement's root wrapper, below a leaf, or as a third operand of an assignment.
+    fn hand_edited(&mut self, e: Expr) -> Expr {
+        let mut extras = Vec::new();
+        for _ in 0..self.rng.range(1, 2) {
+            let x = match self.rng.below(4) {
+                0 => self.failing_leaf(),
+                1 => self.assignment(2, 1),
+                _ => {
+                    let t = self.any_ty();
+                    self.expr(t, 2, 1)
+                },
+            };
+            extras.push(x);
+        }
+        match self.rng.below(3) {
+            0 => Expr::Extra(true, Box::new(e), extras),
+            1 => {
+                let t = self.any_ty();
+                let leaf = self.leaf(t);
+                Expr::Chain(vec![e, Expr::Extra(false, Box::new(leaf), extras)])
+            },
+            _ => {
+                let a = self.assignment(2, 1);
+                Expr::Chain(vec![e, Expr::Extra(false, Box::new(a), extras)])
+            },
+        }
+    }
+
+    fn statement_plain(&mut self, budget: usize, depth: usize) -> Expr {
         if self.rng.percent(self.cfg.assign_pct) {
             self.assignment(budget, depth)
         } else {
@@ -263,6 +302,19 @@ impl<'a> Gen<'a> {
                     self.statement(2, 1),
                     Expr::Lit(Value::String(name.clone())),
                 ]),
+            };
+            let ty = self.any_ty();
+            let rhs = self.expr(ty, sub_budget, sub_depth);
+            return Expr::AssignTo(op, Box::new(target), Box::new(rhs));
+        }
+        if self.rng.percent(4) {
+            // a literal as target (no evaluation order involved): the name as a string constant,
+            // the empty name, or not a name at all (`5 = e` must fail with ExpectedString)
+            let target = match self.rng.below(5) {
+                0 | 1 => Expr::Lit(Value::String(name.clone())),
+                2 => Expr::Lit(Value::String(String::new())),
+                3 => Expr::Lit(Value::Int(5)),
+                _ => Expr::Lit(Value::Boolean(true)),
             };
             let ty = self.any_ty();
             let rhs = self.expr(ty, sub_budget, sub_depth);
